@@ -35,6 +35,21 @@ font/type1.go `NewType1Font`, `parseEncoding`, `parseWidths`; font/truetype.go
 `NewTrueTypeFont`; font/cidfont.go `NewType0Font`, `parseDescendantFont`, `NewCIDFont`,
 `parseCIDSystemInfo`; extractor.go `Fragments`, `resolvePages`.
 
+Resource bounds of the code (repairs made for property C02) that this model carries, with the
+code's constants and comparisons:
+* `PdfDoc.maxPageTreeDepth = 10000` (86b42aa): `buildNode` is entered with the depth of the
+  node and answers an error at `dep ≥ 10000`, before it looks at the node;
+* the visited set also records the object number of an indirect `/Kids` array (cd93b07,
+  `visitKidsRef`): an array reached a second time is an error;
+* `PdfDoc.maxPageContentBytes = 64 MiB` (36a165b): `contentBytes` joins the decoded parts with
+  `PdfDoc.joinBounded`, which refuses `len(allData)+len(data) > 64 MiB`;
+* `Pdf.maxNestingDepth = 500` (a3fd154) is inside C06's `coreParse` / `csParse`.
+Not carried: `maxNestedLoads = 16` (129dd3d) limits how many `GetObject` calls may be in
+progress inside each other. Loads nest through `getObjectStream` (one level: `loadObjStm`
+below, which does not recurse) and through an indirect `/Length` resolved while a stream is
+being parsed — and that read is not part of this model (the abstract file carries each
+stream's data). `getObject` below nests two loads at most, so the bound is never reached.
+
 Not modelled (the model answers `Err.unsupported`, so no theorem speaks about these inputs):
 a `/Kids` element that is a direct dictionary (ISO 32000-1 requires indirect references;
 tabula recurses into it without its visited check), the `Do` operator when the page has an
@@ -51,7 +66,8 @@ abbrev Str := List Nat
 abbrev Dict := List (Str × Obj)
 
 /-- `err`: tabula returns an error; `unsupported`: outside the modelled fragment (see the
-header); `fuel`: the page-tree walk did not finish within its bound (see `fuelOf`). -/
+header); `fuel`: the page-tree walk did not finish within its bound (see `fuelOf`) — proved
+impossible for `readPages` (Lemmas/ReaderBounds.lean `readPages_never_fuel`). -/
 inductive Err
   | err
   | unsupported
@@ -380,33 +396,51 @@ inductive RTree
   | node (d : Dict) (kids : List RTree)
   deriving Repr
 
+/-- the visited check `traversePageNode` makes on a `/Kids` entry that is an indirect
+reference (cd93b07): the object number of the array is recorded in `PageTree.visited` like
+that of a node, and reaching it a second time is an error (`none`). A direct array is not
+recorded. (A negative number is never recorded twice in the model: `resolve` fails on it.) -/
+def visitKidsRef (vis : List Nat) : Obj → Option (List Nat)
+  | .ref n _ =>
+    if n < 0 then some vis
+    else if vis.contains n.toNat then none
+    else some (n.toNat :: vis)
+  | _ => some vis
+
 mutual
-/-- `traversePageNode` as far as it walks the object graph. `vis` is `PageTree.visited`.
-Fuel: every call consumes one unit (see `fuelOf`). -/
-def buildNode (res : Res) : Nat → List Nat → Dict → Except Err (RTree × List Nat)
-  | 0, _, _ => .error .fuel
-  | fuel + 1, vis, d =>
+/-- `traversePageNode` as far as it walks the object graph. `vis` is `PageTree.visited`, `dep`
+is `PageTree.depth` when the call is entered (0 for the root): the call starts with
+`if t.depth >= maxPageTreeDepth { return error }` (86b42aa), before the node's `/Type` is
+looked at. Fuel: every call consumes one unit (see `fuelOf`). -/
+def buildNode (res : Res) : Nat → Nat → List Nat → Dict → Except Err (RTree × List Nat)
+  | 0, _, _, _ => .error .fuel
+  | fuel + 1, dep, vis, d =>
+    if dep ≥ PdfDoc.maxPageTreeDepth then .error .err
+    else
     match dget d kType with
     | some (.name t) =>
       if t = kPages then
         match dget d kKids with
         | none => .error .err
         | some k =>
-          match resolve res k with
-          | .error e => .error e
-          | .ok (.obj (.arr kids)) =>
-            match buildKids res fuel vis kids with
+          match visitKidsRef vis k with
+          | none => .error .err
+          | some vis0 =>
+            match resolve res k with
             | .error e => .error e
-            | .ok (ts, vis') => .ok (.node d ts, vis')
-          | .ok _ => .error .err
+            | .ok (.obj (.arr kids)) =>
+              match buildKids res fuel (dep + 1) vis0 kids with
+              | .error e => .error e
+              | .ok (ts, vis') => .ok (.node d ts, vis')
+            | .ok _ => .error .err
       else if t = kPage then .ok (.leaf d, vis)
       else .error .err
     | _ => .error .err
-/-- the `for i, kidObj := range kids` loop -/
-def buildKids (res : Res) : Nat → List Nat → List Obj → Except Err (List RTree × List Nat)
-  | 0, _, _ => .error .fuel
-  | _ + 1, vis, [] => .ok ([], vis)
-  | fuel + 1, vis, k :: ks =>
+/-- the `for i, kidObj := range kids` loop; `dep` is the depth the kids are entered with -/
+def buildKids (res : Res) : Nat → Nat → List Nat → List Obj → Except Err (List RTree × List Nat)
+  | 0, _, _, _ => .error .fuel
+  | _ + 1, _, vis, [] => .ok ([], vis)
+  | fuel + 1, dep, vis, k :: ks =>
     match k with
     | .ref n _ =>
       if n < 0 then .error .err
@@ -415,10 +449,10 @@ def buildKids (res : Res) : Nat → List Nat → List Obj → Except Err (List R
         match res n.toNat with
         | .error e => .error e
         | .ok (.obj (.dict kd)) =>
-          match buildNode res fuel (n.toNat :: vis) kd with
+          match buildNode res fuel dep (n.toNat :: vis) kd with
           | .error e => .error e
           | .ok (t, vis1) =>
-            match buildKids res fuel vis1 ks with
+            match buildKids res fuel dep vis1 ks with
             | .error e => .error e
             | .ok (ts, vis2) => .ok (t :: ts, vis2)
         | .ok _ => .error .err
@@ -442,7 +476,7 @@ def pageTree (res : Res) (fuel : Nat) (root : Option Nat) : Except Err RTree :=
         | .ok (.obj (.dict pd)) =>
           match dget pd kCount with
           | some (.int _) =>
-            match buildNode res fuel [] pd with
+            match buildNode res fuel 0 [] pd with
             | .error e => .error e
             | .ok (t, _) => .ok t
           | _ => .error .err
@@ -734,6 +768,14 @@ def decodedParts : List SVal → Except Err (List Str)
   | .stream none :: _ => .error .err
   | .obj _ :: r => decodedParts r
 
+/-- the join of the decoded parts under the limit of 64 MiB (`PdfDoc.joinLoop`, 36a165b):
+the loop of `extractTextWithFragments` decodes and checks part by part, so a part that does not
+decode and a part that exceeds the limit both end it with an error, whichever comes first -/
+def joinParts (ps : List Str) : Except Err (Option Str) :=
+  match PdfDoc.joinBounded ps with
+  | some content => .ok (some content)
+  | none => .error .err
+
 /-- `Page.Contents` + the decoding loop of `extractTextWithFragments`: the joined content
 (`none`: the page has no `/Contents`) -/
 def contentBytes (res : Res) (contents : Option Obj) : Except Err (Option Str) :=
@@ -744,14 +786,14 @@ def contentBytes (res : Res) (contents : Option Obj) : Except Err (Option Str) :
     | .error e => .error e
     | .ok (.stream dec) =>
       match decodedParts [.stream dec] with
-      | .ok ps => .ok (some (PdfDoc.joinContents ps))
+      | .ok ps => joinParts ps
       | .error e => .error e
     | .ok (.obj (.arr xs)) =>
       match resolveAll res xs with
       | .error e => .error e
       | .ok vs =>
         match decodedParts vs with
-        | .ok ps => .ok (some (PdfDoc.joinContents ps))
+        | .ok ps => joinParts ps
         | .error e => .error e
     | .ok _ => .error .err
 
@@ -804,9 +846,10 @@ needs as much fuel as its longest chain of nested calls. On such a chain every `
 step except the last handles one `/Kids` element, and every `buildNode` step except the
 first is entered from such an element. An element that does not stop the walk is a reference
 to a number that was not visited before and has a cross-reference entry, i.e. one of the at
-most `maxKey + 1` numbers `0..maxKey`, each at most once in the whole walk. So a chain has at
-most `maxKey + 2` `buildKids` steps and `maxKey + 2` `buildNode` steps: `2 * (maxKey + 2)` would
-do; the model takes twice that. -/
+most `maxKey + 1` numbers `0..maxKey`, each at most once in the whole walk (indirect `/Kids`
+arrays use up numbers too). So a chain has at most `maxKey + 2` `buildKids` steps and
+`maxKey + 2` `buildNode` steps: `2 * (maxKey + 2)` would do; the model takes twice that.
+Proved: Lemmas/ReaderBounds.lean `build_fuel`, `pageTree_fuel_enough`. -/
 def fuelOf (f : AbsFile) : Nat := 4 * (maxKey (xref f) + 2)
 
 /-- `ParsePrevXRef` fails when `/Prev` names an offset where no section is recorded; C04's
